@@ -22,6 +22,7 @@ type c14Case struct {
 	FailHandler int  `json:"fail_handler"`
 	FailAt      int  `json:"fail_at"`
 	Panic       bool `json:"panic"`
+	WrapNF      bool `json:"error_wraps_datastore_notfound,omitempty"`
 	Parallel    bool `json:"parallel"`
 	// PersistFrom: handler 0 fails for every height >= PersistFrom during the first call (0 = off)
 	PersistFrom uint64 `json:"persist_from,omitempty"`
@@ -47,6 +48,9 @@ func c14Run(t *testing.T, run *vk.Run, c c14Case, pre *preState) {
 		if c.Panic {
 			fault = fmt.Sprintf("panic@h%d", c.FailHandler)
 		}
+		if c.WrapNF {
+			fault = fmt.Sprintf("error-wrapping-notfound@h%d", c.FailHandler)
+		}
 	}
 	feat := fmt.Sprintf("%s,%s,%s,txn=%v,handlers=%d,fault=%s,parallel=%v", kind, where, c.Cfg.BatchClass(), c.Cfg.Txn, c.Handlers, fault, c.Parallel)
 	viol := func(clause, format string, a ...any) {
@@ -63,7 +67,7 @@ func c14Run(t *testing.T, run *vk.Run, c c14Case, pre *preState) {
 			h.Calls = nil
 			if c.FailAt > 0 && i == c.FailHandler {
 				// arm the fault only now: invocation numbers count from this DeleteRange call
-				h.FailAt, h.Panic = c.FailAt, c.Panic
+				h.FailAt, h.Panic, h.WrapNF = c.FailAt, c.Panic, c.WrapNF
 			}
 			if c.PersistFrom > 0 && i == 0 {
 				h.FailFromHeight = c.PersistFrom
@@ -258,7 +262,7 @@ func c14Persistent(w *World, c c14Case, pre *preState, hs []*handlerRec, o Obs, 
 func TestC14(t *testing.T) {
 	run := vk.NewRun("C14", "fault_enumeration")
 	defer run.Finish()
-	run.SetRule("for every distinct store state (BFS depth d over the store alphabet), every accepted (from,to) from the relative-position alphabet, 1 and 2 registered handlers that read the header via GetByHeight, and every (handler i, invocation k, error|panic) fault position plus no fault; sequential and (threshold hook) parallel deletion path; distinct = (range kind, pending/flushed, flush regime, flavour, handlers, fault, removed count, outcome)")
+	run.SetRule("for every distinct store state (BFS depth d over the store alphabet), every accepted (from,to) from the relative-position alphabet, 1 and 2 registered handlers that read the header via GetByHeight, and every (handler i, invocation k, error|panic|error wrapping datastore.ErrNotFound) fault position plus no fault; sequential and (threshold hook) parallel deletion path; distinct = (range kind, pending/flushed, flush regime, flavour, handlers, fault, removed count, outcome)")
 	run.Assume("handler call order is only constrained through the datastore commit log (log length at call time)")
 
 	var rc c14Case
@@ -331,9 +335,9 @@ func TestC14(t *testing.T) {
 							}
 							for fh := 0; fh < nh; fh++ {
 								for k := 1; k <= width; k++ {
-									for _, pn := range []bool{false, true} {
+									for _, pn := range []int{0, 1, 2} {
 										fc := base
-										fc.FailHandler, fc.FailAt, fc.Panic = fh, k, pn
+										fc.FailHandler, fc.FailAt, fc.Panic, fc.WrapNF = fh, k, pn == 1, pn == 2
 										c14Run(t, run, fc, pre)
 										run.AddEval(1)
 									}
